@@ -11,14 +11,17 @@ EXTENDS Keys, Json
 CONSTANT EMIT
 VARIABLES s
 KeyScn == [kind : {"keys"}, type : Types, enc : Encodings, privfmt : PrivFormats, pubfmt : PubFormats]
-ConvScn == [kind : {"convert"}, type : Types, zx : 0..2, zy : 0..2, cols : {1, 8, 13}, indent : {0, 4}, tab : BOOLEAN,
-            nolength : BOOLEAN, noconst : BOOLEAN]
+\* cols: one byte per row, rows that end exactly at / one byte before / one byte after the end of a 32-, 57-, 64-, 96- or 132-byte
+\* key, more columns than bytes; decor: the remaining layout options (array type, length type with a cast, header and footer file)
+ConvScn == [kind : {"convert"}, type : Types, zx : 0..2, zy : 0..2, cols : {1, 7, 8, 13, 31, 32, 33, 200}, indent : {0, 4}, tab : BOOLEAN,
+            nolength : BOOLEAN, noconst : BOOLEAN, decor : BOOLEAN]
 \* coordinates whose FIRST or LAST byte has a value that byte-oriented (de)serialisation code treats specially: 0x00, the
 \* X9.62 point-format markers 0x02 0x03 0x04 0x06 0x07, DER SEQUENCE 0x30, sign bit 0x80, 0xFF, 0x20 / 0x0A (whitespace)
 EdgeVals == {0, 1, 2, 3, 4, 6, 7, 10, 32, 48, 128, 255}
 EdgeScn == [kind : {"convertedge"}, type : {"secp256r1", "secp384r1"}, pos : {"x0", "y0", "xn", "yn"}, val : EdgeVals]
 Init == s \in EdgeScn \cup KeyScn \cup {c \in ConvScn : (c.type \notin Nist => (c.zx = 0 /\ c.zy = 0)) /\ (c.tab => c.indent = 4)
-                                           /\ (c.cols = 13 => ~c.noconst)}
+                                           /\ (c.cols = 13 => ~c.noconst) /\ (c.cols \in {7, 31, 32, 33, 200} => (c.indent = 4 /\ ~c.tab /\ ~c.noconst))
+                                           /\ (c.decor => (c.indent = 4 /\ ~c.tab))}
 Next == UNCHANGED s
 Spec == Init /\ [][Next]_s
 
